@@ -144,7 +144,7 @@ def run(tier, seed):
                     {"id": "nursery-model-fixed", "tlc": res["violation"][:3000]})
     # ... and the mechanism as coded (a per-thread stack popped by count) violates each of them
     for cfg, inv in ASIS:
-        res = vlib.run_tlc("Nursery", cfg, work, workers=4, timeout=300, allow_violation=True)
+        res = vlib.run_tlc("Nursery", cfg, work, workers=1, timeout=300, allow_violation=True)
         r.add_tlc(res)
         if res["violation"] and res.get("violated") == inv:
             case = {"id": f"nursery-design-{inv}", "tag": f"nursery-design|inv={inv}",
